@@ -15,6 +15,15 @@ QUICK_E2E = 4
 ALLOC_CODES = {0: "ok", 2: "live-registers-share", 3: "allocated-not-renamed-input", 4: "entry-not-clean",
                5: "dropped-move-cleared-live-flag", 6: "table-wf", 7: "liveness-fuel"}
 SPILL_CODES = {0: "ok", 1: "spill-model-differs", 8: "long-offset-unmodelled", 9: "model-panic"}
+SLOT_CODES = {20: "slot-shared-by-live-registers", 21: "slots-unreadable", 22: "slots-disjoint-on-live-registers", 7: "no-fuel"}
+
+
+def _src(d):
+    try: return open(os.path.join(d, "src/lib.sw")).read()
+    except OSError:
+        try: return open(os.path.join(d, "src/main.sw")).read()
+        except OSError: return None
+
 HEADER = "From SwayV Require Import Base.Util Asm.Model C08.Spec C08.Model C08.Judge.\nLocal Open Scope N_scope.\n"
 
 
@@ -62,6 +71,24 @@ def gen_spill_fn(rng, name, n, shape):
             for i in range(b):
                 s_ = sum(s_ + i * w + 1 for w in ws) % 1000003
             return s_ + sum(val(i, a, b) for i in range(n))
+    elif shape == "loopuse":
+        # n values defined BEFORE the loop and used at the start of every iteration (live across the back edge
+        # although their last textual use precedes the temporaries' definitions), then m temporaries live at once
+        # later in the body: a slot policy that looks at linear def..use intervals lets them share slots
+        m = 44
+        ws = [rng.randint(1, 9) for _ in range(m)]
+        body = "".join("    let v%d: u64 = a * %d + b + %d;\n" % (i, cs[i][0], cs[i][1]) for i in range(n))
+        body += "    let mut i: u64 = 0;\n    let mut s: u64 = 1;\n    while i < b {\n"
+        lines, acc = chunked_sum(["v%d" % i for i in range(n)], indent="        ")
+        body += lines + "        let sv: u64 = " + acc + ";\n"
+        body += "".join("        let w%d: u64 = i * %d + %d;\n" % (j, ws[j], j + 1) for j in range(m))
+        lines, acc = chunked_sum(["w%d" % j for j in range(m)], indent="        ")
+        body += lines + "        s = (s + sv + " + acc + ") % 1000003;\n        i = i + 1;\n    }\n    s\n"
+        def ev(a, b):
+            s_ = 1
+            for i in range(b):
+                s_ = (s_ + sum(val(k, a, b) for k in range(n)) + sum(i * w + j + 1 for j, w in enumerate(ws))) % 1000003
+            return s_
     else:  # right-nested xor: every left operand stays live
         n = min(n, 50)
         expr = "(a * %d + b + %d)" % cs[n - 1]
@@ -82,6 +109,7 @@ def gen_spill_pkg(rng, base, name, nfn, shapes=("locals", "nested", "loop", "loo
     for k in range(nfn):
         n, shape = rng.randint(38, 75), rng.choice(list(shapes))
         if k == 0 and "loopspill" in shapes: shape = "loopspill"      # always one loop with a spill inside
+        if k == 1 and "loopuse" in shapes: shape = "loopuse"          # ... and one whose pre-loop values are used in the loop
         s, ev = gen_spill_fn(rng, "f%d" % k, n, shape)
         src += s + "\n"; meta.append((n, shape))
         for (a, b) in [(3, 5), (0, 0), (rng.randint(1, 1000), rng.randint(3, 40))]:
@@ -118,7 +146,8 @@ def alloc_case(v, cmap, mutate=None):
 def spill_case(v):
     itn = A.Interner()
     before, after = A.ops_term(v["before"], itn), A.ops_term(v["after"], itn)
-    return "Eval vm_compute in (judge_spill %s %s %s)." % (before, A.nl(itn.vreg(r) for r in v["spills"]), after)
+    v["_names"] = {vid: name for name, vid in itn.virt.items()}
+    return "Eval vm_compute in (judge_spill_all %s %s %s)." % (before, A.nl(itn.vreg(r) for r in v["spills"]), after)
 
 
 def find_mutation(v, cmap):
@@ -165,7 +194,8 @@ def run(ctx):
     for k in range(1 if ctx.quick else 6):
         d, meta = gen_spill_pkg(ctx.rng, base, "spill_dbg_%d" % k, 3 if ctx.quick else 6, shapes=("nested",))
         pkgs.append(d); kinds_of[d] = "generated-spill"; gen_meta[d] = meta
-        d, meta = gen_spill_pkg(ctx.rng, base, "spill_rel_%d" % k, 3 if ctx.quick else 6)
+        d, meta = gen_spill_pkg(ctx.rng, base, "spill_rel_%d" % k, 3 if ctx.quick else 6,
+                                shapes=("locals", "nested", "loop", "loopspill", "loopuse"))
         rel_pkgs.append(d); kinds_of[d] = "generated-spill-release"; gen_meta[d] = meta
     t0 = time.time()
     try:
@@ -236,7 +266,7 @@ def run(ctx):
         ctx.violation("model-eval", {"log": str(e)[-3000:]}, "C08 judge could not be evaluated", no_input=True)
         return
     ctx.log("judged %d cases (+%d mutants) in %.0fs" % (len(texts), len(muts), time.time() - t0))
-    hist, shist, mut_rej = {}, {}, {}
+    hist, shist, mut_rej, slhist, slmut = {}, {}, {}, {}, {}
     nfun = nspill = nontriv = 0
     samples = []
     for sh, rs in zip(shards, outs):
@@ -273,12 +303,35 @@ def run(ctx):
             else:
                 nspill += 1
                 name = SPILL_CODES.get(code, str(code)); shist[name] = shist.get(name, 0) + 1
+                # slots read back from the REAL output (C08_slot_conflict_real / _none_valid)
+                nj = int(r[2]); js = [int(x) for x in r[3:3 + nj]]; jm = [int(x) for x in r[3 + nj:]]
+                sname = SLOT_CODES.get(js[0], str(js[0])); slhist[sname] = slhist.get(sname, 0) + 1
+                mname = SLOT_CODES.get(jm[0], str(jm[0])); slmut[mname] = slmut.get(mname, 0) + 1
+                if js[0] == 20:
+                    names = v.get("_names", {})
+                    i, dreg, vreg = js[1], names.get(js[2], str(js[2])), names.get(js[3], str(js[3]))
+                    bops = v["before"]["ops"]
+                    fn = next((o["t"] for o in bops if o["kind"]["k"] == "label"), "?")
+                    ctx.violation("slotshare-%s-%s" % (os.path.basename(d), fn),
+                                  {"pkg": d, "source": _src(d), "function_label": fn, "defining_op_index": i,
+                                   "defining_op": bops[i]["t"] if i < len(bops) else None,
+                                   "defined_register": dreg, "live_register": vreg, "spills": v["spills"],
+                                   "ops_near": [o["t"] for o in bops[max(0, i - 3):i + 4]],
+                                   "theorem": "C08_slot_conflict_real: the second register is live after this instruction in the least liveness solution and both registers are spilled to the same slot"},
+                                  "spill(): two simultaneously live spilled registers share a stack slot: %s is defined at op %d (%s) of %s in %s while %s, spilled to the same slot, is live after it"
+                                  % (dreg, i, bops[i]["t"] if i < len(bops) else "?", fn, os.path.basename(d), vreg))
+                elif js[0] != 22 and code == 0:
+                    ctx.violation("slots-unreadable-%s" % os.path.basename(d), {"pkg": d, "answer": js},
+                                  "the spill model equals the real output but its slots cannot be read back (%s): SlotModel.align does not fit" % sname, no_input=True)
                 if code in (1, 9):
                     ctx.violation("spill-%s-%d" % (os.path.basename(d), where),
                                   {"pkg": d, "index": where, "spills": v["spills"],
                                    "after_near": [o["t"] for o in v["after"]["ops"][max(0, where - 3):where + 4]]},
                                   "spill(): %s at op %d — the real spilling differs from the model whose slots are proved distinct" % (name, where),
                                   no_input=True)
+    if nspill and not slmut.get(SLOT_CODES[20]):
+        ctx.violation("slot-mutant-accepted", {"mutant_judgements": slmut},
+                      "no merged-slot mutant of a real spill record was refuted: the slot judgement is blind", no_input=True)
     if nspill == 0 and not infra:
         ctx.violation("no-spills", {"generated": gen_meta}, "no function needed spilling: the quantifier 'including functions that need spilling' is not exercised", no_input=True)
     ctx.coverage.update({
@@ -290,7 +343,7 @@ def run(ctx):
         "dump_records": nrec, "infrastructure_failures": infra, "evaluations": nfun + nspill + len(muts), "functions_validated": nfun, "spill_records_validated": nspill,
         "distinct_nontrivial": nontriv,
         "rule": "distinct by content of (input ops, coalesce map, assignment, allocated ops); non-trivial = at least 3 distinct virtual registers defined",
-        "disagreements_checked": nfun + nspill, "judgements": hist, "spill_judgements": shist,
+        "disagreements_checked": nfun + nspill, "judgements": hist, "spill_judgements": shist, "slot_judgements_on_real_output": slhist, "slot_judgements_on_merged_slot_mutants": slmut,
         "mutants": {"tried": len(muts), "rejected_by_code": {ALLOC_CODES.get(k, k): n for k, n in mut_rej.items()}},
         "generated_spill_functions": {os.path.basename(d): m for d, m in gen_meta.items()},
         "samples": samples,
